@@ -260,12 +260,22 @@ def unchecked_rule(ctx, w, types, rule, floor=10, skip=()):
                     elif pair_ok and target in ("RoomId", "RoomAliasId") and pair_ok[0] == "RoomOrAliasId":
                         # narrowing conversion: re-verified, not only reviewed - on every path the constructor of `target` is reached only under
                         # the variant test that says the text is a `target`
-                        dexv = D.Dex(w.lookup, adt_discr=w.adt_discr, inline=lambda n_: "{closure" in n_, effects=lambda n_: n_.rsplit("::", 1)[-1] in UNCHECKED)
+                        # (`is_room_id()` / `is_room_alias_id()` are thin wrappers over `variant()`: analysed in place)
+                        dexv = D.Dex(w.lookup, adt_discr=w.adt_discr, effects=lambda n_: n_.rsplit("::", 1)[-1] in UNCHECKED,
+                                     inline=lambda n_: "{closure" in n_ or (n_.startswith("ruma_common::identifiers::room_or_alias_id::RoomOrAliasId::") and
+                                                                            n_.rsplit("::", 1)[-1] not in ("variant", "as_str", "as_bytes") and n_.rsplit("::", 1)[-1] not in UNCHECKED))
                         badv = []
                         try:
                             for p_ in dexv.paths(fn, [D.sym(f"a{i}") for i in range(fn["body"]["argc"])]):
                                 tv = U.true_variants(p_)
                                 var = {v_ for k_, v_ in tv.items() if re.search(r"RoomOrAliasId::variant\(", k_)}
+                                # the enum has two variants: a failed test for one of them is a test for the other
+                                for a_, t_ in p_.conds:
+                                    sa_ = D.show_atom(a_)
+                                    m_ = re.search(r"\b(RoomAliasId|RoomId)\b\)?$", sa_) if "RoomOrAliasId::variant(" in sa_ else None
+                                    if m_ and a_[0] in ("variant", "eq"):
+                                        named = m_.group(1)
+                                        var.add(named if t_ else ("RoomId" if named == "RoomAliasId" else "RoomAliasId"))
                                 for e_ in p_.effects:
                                     if short_ty(e_[0].rsplit("::", 1)[0]) == target and var != {target}:
                                         badv.append(sorted(var) or ["no variant test"])
